@@ -31,7 +31,8 @@ SupportedTerms == CollectTerms \cup FindTerms \cup {"collect_x", "count", "for_e
 Applicable(ev) ==
   /\ ev.mode # "free"
   /\ ~IsBig(ev.p)
-  /\ ev.p.src \in {"vec", "slice", "range", "iter", "iterx", "deque", "list", "btree", "dequeref", "btreeref"}
+  /\ ev.p.src \in {"vec", "slice", "range", "iter", "iterx", "deque", "list", "btree", "dequeref", "btreeref",
+                  "hashset", "hashsetref", "heap", "heapref", "listref"}
   /\ (ev.p.cs < 0 \/ (ev.p.cs >= 1 /\ ev.p.cs <= Len(Stages(ev.p))) \/ ev.p.cs = TermStage)
   /\ ev.p.term.k \in SupportedTerms
   /\ (Len(Stages(ev.p)) > 0 \/ TermHasClosure(ev.p))
